@@ -6,12 +6,14 @@
 EXTENDS ArraiValue, SequencesExt
 
 CONSTANTS Kinds,     \* which element pools literals are drawn from
-          MaxLit, Depth
+          MaxLit, Depth,
+          Steps,     \* which derived step kinds are enabled in chains
+          SmallIdx   \* TRUE: indices {0, 1} only (dense zero-based sequences, for branching histories)
 
 VARIABLES prog, env, done
 vars == <<prog, env, done>>
 
-Idx  == {-1, 0, 1, 2, 4}
+Idx  == IF SmallIdx THEN {0, 1} ELSE {-1, 0, 1, 2, 4}
 Vals == {N(1), N(2)}
 PoolOf(kind) ==
   CASE kind = "str"   -> {Chr(i, c) : i \in Idx, c \in {97, 98}}
@@ -89,7 +91,13 @@ StepCall == \E i \in Ix, k \in Keys :
               /\ prog' = Append(prog, [k |-> "call", i |-> i, key |-> k])
               /\ env'  = Append(env, Call(env[i], k))
 Step == /\ Depth > 0 /\ Len(prog) >= 2 /\ ~Full
-        /\ (StepMap \/ StepMap2 \/ StepCat \/ StepShift \/ StepWith \/ StepWithout \/ StepCall)
+        /\ \/ "map" \in Steps /\ StepMap
+           \/ "map2" \in Steps /\ StepMap2
+           \/ "cat" \in Steps /\ StepCat
+           \/ "shift" \in Steps /\ StepShift
+           \/ "with" \in Steps /\ StepWith
+           \/ "without" \in Steps /\ StepWithout
+           \/ "call" \in Steps /\ StepCall
         /\ UNCHANGED done
 Emit == /\ Full /\ ~done /\ done' = TRUE /\ UNCHANGED <<prog, env>>
         /\ PrintT(ToJson([spec |-> "Keyed", prog |-> prog, env |-> env]))
